@@ -18,6 +18,9 @@ def bounds(tier):
     return {"L": 2 if tier == "quick" else 3, "corpus": "ordered pairs, 180 option combinations" if tier == "quick" else "ordered pairs (L<=3; all 480 option combinations for L<=2) + triples"}
 
 
+RANGES = [(1, 1), (1, 2), (2, 2), (1, 3), (2, 3), (3, 3), (1, 4), (3, 4), (2, 4)]
+
+
 def _docs(L):
     out = []
     for n in range(0, L + 1):
@@ -29,6 +32,9 @@ def _docs(L):
 def cases(tier, seed):
     L = bounds(tier)["L"]
     docs = _docs(L)
+    # histories on one instance: fit with range A, set_params(ngram_range=B), fit again -> must equal scikit-learn with B
+    for a in RANGES:
+        yield {"hist": True, "first_range": list(a)}
     if tier == "quick":
         for d1 in docs:
             for d2 in docs:
@@ -69,11 +75,53 @@ def _opts(mode="full"):
     return OPTS
 
 
+def _run_hist(case):
+    import numpy
+    from sklearn.feature_extraction.text import CountVectorizer, TfidfVectorizer
+    from mlinsights.mlmodel import TraceableCountVectorizer, TraceableTfidfVectorizer
+    viol = []
+    corpus = ["aa aab the The aa aab", "the aab aab aa", "aa", "The the aab aa the aab The", ""]
+    other = ["aab aa aa the", "the The"]
+    a = tuple(case["first_range"])
+    cnt = 0
+    for b in RANGES:
+        if b == a:
+            continue
+        for (Tr, Ref, nm) in ((TraceableCountVectorizer, CountVectorizer, "count"), (TraceableTfidfVectorizer, TfidfVectorizer, "tfidf")):
+            for sw in (None, ["aab"]):
+                cnt += 1
+                desc = "%s ngram_range %r then set_params(ngram_range=%r) stop_words=%r" % (nm, a, b, sw)
+                try:
+                    tr = Tr(ngram_range=a, stop_words=sw)
+                    tr.fit_transform(corpus)
+                    tr.transform(other)
+                    tr.set_params(ngram_range=b)
+                    A = tr.fit_transform(corpus).toarray()
+                    A2 = tr.transform(other).toarray()
+                    ref = Ref(ngram_range=b, stop_words=sw)
+                    B = ref.fit_transform(corpus).toarray()
+                    B2 = ref.transform(other).toarray()
+                    voc = {" ".join(k): int(v) for k, v in tr.vocabulary_.items()}
+                    if A.shape != B.shape or numpy.abs(A - B).max() > 1e-12 or A2.shape != B2.shape or numpy.abs(A2 - B2).max() > 1e-12 \
+                            or voc != {k: int(v) for k, v in ref.vocabulary_.items()}:
+                        viol.append({"sig": "traceable vectorizer|refit after set_params(ngram_range) differs from scikit-learn|%s" % nm,
+                                     "msg": "shapes %r vs %r %s" % (A.shape, B.shape, desc)})
+                        break
+                except Exception as ex:
+                    viol.append({"sig": "traceable vectorizer|refit after set_params(ngram_range) raises %s|%s" % (type(ex).__name__, nm),
+                                 "msg": "%s %s" % (str(ex)[:150], desc)})
+                    break
+    return {"viol": viol[:2], "nontrivial": True, "states": cnt, "transitions": cnt * 4, "outcome": ("hist",)}
+
+
 def run_case(case):
     import numpy
     import warnings
     from sklearn.feature_extraction.text import CountVectorizer, TfidfVectorizer
     from mlinsights.mlmodel import TraceableCountVectorizer, TraceableTfidfVectorizer
+
+    if case.get("hist"):
+        return _run_hist(case)
 
     warnings.simplefilter("ignore")
     viol = []
